@@ -2,6 +2,7 @@
 
 mod checks;
 mod dfs;
+mod diag;
 mod e2e;
 mod exec;
 mod gen;
